@@ -62,16 +62,15 @@ func (cp *Checkpoint) Destroy() error {
 }
 
 func (cp *Checkpoint) Document() checkpointDocument {
-	if len(cp.WALs) > 1 {
-		panic("should not serialize a checkpoint with multiple WALs")
-	}
 	doc := checkpointDocument{
 		ID:         cp.ID,
 		Levels:     cp.Levels.Document(),
 		LastSeqNum: cp.LastSeqNum,
 	}
-	if len(cp.WALs) == 1 {
-		doc.WALs = []wal.HandleDocument{cp.WALs[0].Document()}
+	// A checkpoint loaded from several operators' checkpoints (scale-in) carries
+	// one WAL per origin and stays in the list until retention drops it.
+	for _, w := range cp.WALs {
+		doc.WALs = append(doc.WALs, w.Document())
 	}
 
 	return doc
